@@ -1,10 +1,93 @@
 (* C05 / C32 - the theorems instantiated at the variant the CURRENT source implements
-   (ArcGen.Params_Recovery.deployed, regenerated from /repo on every run). *)
+   (ArcGen.Params_Recovery.deployed, regenerated from /repo on every run).
+
+   The PRIMARY obligations are the unguarded ones: each of them needs a repair flag of [deployed]
+   to be [true] (by computation).  If a repair disappears from the source, the flag is regenerated
+   as [false], the obligation no longer type-checks, and the check looks for the failing input
+   among the witnesses of the corresponding [_refuted] theorem. *)
 From Coq Require Import List ZArith NArith Bool.
 From ArcGen Require Import Params_Recovery.
 From Arc Require Import Lib.AList Recovery.Model Recovery.Proofs.
 Import ListNotations.
 Open Scope Z_scope.
+
+(* ---- primary: the deployed code is a repaired variant -------------------------------- *)
+
+Theorem C05_deployed_replay_rows : forall san now now' db meas cols rows sg,
+  nonempty db = true -> nonempty meas = true -> NoDup (map fst cols) ->
+  (exists tc, lookupb k_time cols = Some tc /\ tc <> []) ->
+  (exists n, all_len n cols = true) ->
+  forallb (fun nc => homog_col (snd nc)) cols = true ->
+  clean_cols san cols ->
+  live_batch san now (BRows db meas cols) = Some (rows, sg) ->
+  exists bs, replay_file deployed san now' (wal_entries deployed (BRows db meas cols)) = (bs, true) /\ batch_rows bs = rows.
+Proof.
+  intros san now now' db meas cols rows sg H1 H2 H3 H4 H5 H6 H7 Hl.
+  apply (replay_equals_live deployed san now now' (BRows db meas cols) rows sg); [|exact Hl].
+  exact (repaired_rows_guard deployed san db meas cols eq_refl eq_refl eq_refl H1 H2 H3 H4 H5 H6 H7).
+Qed.
+Print Assumptions C05_deployed_replay_rows.
+
+Theorem C05_deployed_replay_raw : forall san now now' db top rows sg,
+  nonempty db = true ->
+  (exists l tc, lookupb k_columns top = Some (GMap l) /\ lookupb k_time (array_cols l) = Some tc /\ tc <> []) ->
+  live_batch san now (BRaw db top) = Some (rows, sg) ->
+  replay_file deployed san now' (wal_entries deployed (BRaw db top)) = ([(rows, sg)], true).
+Proof.
+  intros san now now' db top rows sg H1 H2 Hl.
+  apply (replay_raw_equals_live deployed san now now' db top rows sg); [|exact Hl].
+  exact (repaired_raw_guard deployed db top eq_refl H1 H2).
+Qed.
+Print Assumptions C05_deployed_replay_raw.
+
+Theorem C05_deployed_crash_any_point : forall san evs k now,
+  Forall (ev_guard deployed san) evs ->
+  sub_ms (s_due (run_events deployed san st0 (firstn k evs)))
+         (s_store (run_events deployed san st0 (firstn k evs ++ restart now))).
+Proof. intros san evs k now. exact (crash_any_prefix_repaired deployed san evs k now eq_refl). Qed.
+Print Assumptions C05_deployed_crash_any_point.
+
+(* a write the conversion rejects is a legal event of those histories: it leaves no WAL entry *)
+Theorem C05_deployed_rejected_write_harmless : forall san now s w,
+  live_batch san now w = None -> write1 deployed san now s w = (s, None).
+Proof. intros san now s w. exact (write1_rejected deployed san now s w eq_refl). Qed.
+Print Assumptions C05_deployed_rejected_write_harmless.
+
+Theorem C32_deployed_live : forall san now allow_all allow r f,
+  front deployed san now allow_all allow r = Some f ->
+  (forall w, In (Some w) (f_writes f) ->
+     exists meas cols, bw_parts san now w = Some (f_db f, meas, cols) /\ In meas (f_checked f)) /\
+  (f_writes f <> [] -> forallb (allowed allow_all allow (f_db f)) (f_checked f) = true).
+Proof. intros san now aa al r f. exact (live_routing_repaired deployed san now aa al r f eq_refl). Qed.
+Print Assumptions C32_deployed_live.
+
+Theorem C32_deployed_replicated_rows : forall san now db meas cols n r,
+  nonempty db = true -> nonempty meas = true -> all_len n cols = true ->
+  In r (flat_map (apply_replicated deployed san now) (wal_entries deployed (BRows db meas cols))) ->
+  r_dir r = (db, meas).
+Proof.
+  intros san now db meas cols n r H1 H2 H3.
+  exact (replicated_rows_fixed deployed san now db meas cols n r eq_refl H1 H2 H3 (or_introl eq_refl)).
+Qed.
+Print Assumptions C32_deployed_replicated_rows.
+
+Theorem C32_deployed_replay_dirs : forall san now now' db meas cols rows sg bs,
+  nonempty db = true -> nonempty meas = true -> NoDup (map fst cols) ->
+  (exists tc, lookupb k_time cols = Some tc /\ tc <> []) ->
+  (exists n, all_len n cols = true) ->
+  forallb (fun nc => homog_col (snd nc)) cols = true ->
+  clean_cols san cols ->
+  live_batch san now (BRows db meas cols) = Some (rows, sg) ->
+  replay_file deployed san now' (wal_entries deployed (BRows db meas cols)) = (bs, true) ->
+  map r_dir (batch_rows bs) = map r_dir rows.
+Proof.
+  intros san now now' db meas cols rows sg bs H1 H2 H3 H4 H5 H6 H7 Hl Hr.
+  apply (replay_dirs deployed san now now' (BRows db meas cols) rows sg bs); [|exact Hl|exact Hr].
+  exact (repaired_rows_guard deployed san db meas cols eq_refl eq_refl eq_refl H1 H2 H3 H4 H5 H6 H7).
+Qed.
+Print Assumptions C32_deployed_replay_dirs.
+
+(* ---- whatever the deployed variant is -------------------------------------------------- *)
 
 Theorem C05_deployed_replay_guarded : forall san now now' w rows sg,
   bw_guard deployed san w -> live_batch san now w = Some (rows, sg) ->
@@ -20,7 +103,7 @@ Theorem C05_deployed_crash_guarded : forall san evs k now,
 Proof. exact (crash_any_prefix deployed). Qed.
 Print Assumptions C05_deployed_crash_guarded.
 
-(* every repair site that is still open in the source has its witness *)
+(* every repair site that is open in the source has its witness (vacuous while all are closed) *)
 Theorem C05_deployed_open_findings :
   (v_routing_last deployed = false ->
      map r_dir (replayed deployed w_routing) = [(k_default, b_cpu); (b_otherdb, b_cpu)]) /\
